@@ -177,7 +177,8 @@ def skeleton_correspondence(ctx, decorated):
 
 def mechanisms(d: Decorated):
     """Which of the confirmed defect mechanisms are present in this decorated program (exact detectors)."""
-    m = {"two_orders": False, "while_break": False, "for_bound": False, "float_mod": False, "returns_input": False}
+    m = {"two_orders": False, "while_break": False, "for_bound": False, "float_mod": False, "returns_input": False,
+         "nested_domain": False}
     for fp in d.funcs:
         f = d.onnx_function(fp["name"])
         if f is None or not hasattr(f, "to_function_proto"):
@@ -190,16 +191,21 @@ def mechanisms(d: Decorated):
         proto = f.to_function_proto()
         m["while_break"] |= c01_run.while_break_drops_condition(proto)
         m["returns_input"] |= c01_run.returns_graph_input(proto)
+        m["nested_domain"] |= c01_run.nested_domain_not_imported(proto)
         m["for_bound"] |= c01_run.for_bound_not_live(d.source, fp["name"], c01_gen.analysis_globals(d.prog))
         m["float_mod"] |= "float-mod-tensor" in fp.get("features", [])
     return m
 
 
 def classify(mech, which, text):
-    if "fmod" in text and mech["float_mod"]:
+    if ("fmod" in text or "running Mod node" in text) and mech["float_mod"]:
         return "C01:float-mod-tensor-rhs:graph-fails-in-ort"
     if which == "model" and mech.get("attr_refs"):
         return "C01:attr-default:model-proto-keeps-attribute-references"
+    if which == "function" and mech["nested_domain"] and "function_utils" in text:
+        return "C01:function-proto:domain-used-only-in-subgraph-not-imported:fails-in-ort"
+    if which == "function" and mech["returns_input"] and "it.GetName().empty()" in text:
+        return "C01:function-proto:graph-input-returned-directly:fails-in-ort"
     if mech["two_orders"]:
         return "C01:loop-state-listed-in-two-orders"
     if mech["while_break"]:
@@ -209,7 +215,7 @@ def classify(mech, which, text):
     return None
 
 
-def direct_oracle(ctx, d: Decorated, stats, n_sets):
+def direct_oracle(ctx, d: Decorated, stats, n_sets, rng):
     import numpy as np
     from harness import c01_interp
     from harness.c02 import model_has_attr_refs
@@ -226,9 +232,19 @@ def direct_oracle(ctx, d: Decorated, stats, n_sets):
             mech["attr_refs"] = model_has_attr_refs(model)
         except Exception as e:  # noqa: BLE001
             ctx.violation(f"C01:to_model_proto-raises:{type(e).__name__}", f"to_model_proto() raised {e!r}", {"source": d.source})
-    runner = c01_run.ort_run_subprocess if mech["while_break"] else c01_run.ort_run
+    timed_out = [False]
+
+    def runner(m, feeds):
+        if not mech["while_break"]:
+            return c01_run.ort_run(m, feeds)
+        if timed_out[0]:
+            return None                 # one endless Loop per program is enough evidence
+        r = c01_run.ort_run_subprocess(m, feeds, timeout=8)
+        if r[0] == "timeout":
+            timed_out[0] = True
+        return r
     flagged = False
-    for k, (tensors, attrs) in enumerate(c01_interp.gen_inputs(prog, ctx.rng, n_sets)):
+    for k, (tensors, attrs) in enumerate(c01_interp.gen_inputs(prog, rng, n_sets)):
         stats["input_sets"] += 1
         replay = {"source": d.source, "function": prog["name"], "input_index": k,
                   "tensors": [t.tolist() for t in tensors], "shapes": [list(t.shape) for t in tensors], "attrs": attrs}
@@ -256,12 +272,13 @@ def direct_oracle(ctx, d: Decorated, stats, n_sets):
             results["function"] = ("error", f"building the calling model failed: {e!r}"[:300])
         if isinstance(E, Exception):
             stats["eager_raises"] += 1
-            others_ok = all(r[0] == "ok" for r in results.values())
+            others_ok = all(r is not None and r[0] == "ok" for r in results.values())
             if others_ok:
                 key = classify(mech, "eager", str(E)) or f"C01:eager-raises:{type(E).__name__}"
                 ctx.violation(key, f"eager call raises {E!r:.200} while the graph runs", dict(replay, eager_error=repr(E)[:500]))
                 flagged = True
             continue
+        results = {w: r for w, r in results.items() if r is not None}
         for which, (status, val) in sorted(results.items()):
             stats[f"runs_{which}"] += 1
             if status != "ok":
@@ -308,17 +325,25 @@ def run(ctx):
     analysis_correspondence(ctx, programs)
     stats = collections.Counter()
     wd = c01_run.Workdir()
+    c01_run.quiet_ort()
+    n_oracle = 80 if quick else 1000
+    input_seeds = [rng.getrandbits(64) for _ in programs]
     try:
         decorated = decorate_all(wd, programs)
         explained, broken, n = skeleton_correspondence(ctx, decorated)
         flagged_progs = set()
         mech_count = collections.Counter()
+        import random as _random
+        cache = c01_run.OrtSessionCache()
+        cache.__enter__()
         for d in decorated:
             if not d.accepted:
                 stats["refused"] += 1
                 continue
             stats["accepted"] += 1
-            flagged, mech = direct_oracle(ctx, d, stats, n_sets)
+            if stats["accepted"] > n_oracle:
+                continue
+            flagged, mech = direct_oracle(ctx, d, stats, n_sets, _random.Random(input_seeds[d.idx]))
             for k, v in mech.items():
                 mech_count[k] += 1 if v else 0
             if flagged:
@@ -335,6 +360,10 @@ def run(ctx):
         ctx.obligation(f"correspondence translate: Script/Translate.v = real function_ir (ops, arities, names, subgraph interfaces) on {n} functions "
                        f"({len(explained)} explained by the confirmed defects the model's legacy switch reproduces)", not broken)
     finally:
+        try:
+            cache.__exit__(None, None, None)
+        except Exception:  # noqa: BLE001
+            pass
         wd.close()
     ctx.obligation("generator not degenerate: at least half of the programs are accepted by the decorator", stats["accepted"] * 2 >= n_prog)
     ctx.cover(rule="typed random programs of the ONNX Script subset (see C02) x >= 3 input sets (rank 0-3, a size-1 and a size-0 dim, "
